@@ -356,25 +356,7 @@ def run(w: World, rep: Report):
 
     # ---- R5 -------------------------------------------------------------------
     for h in (cs, css):
-        tries = [n for n in ast.walk(h.node) if isinstance(n, ast.Try)]
-        ok = len(tries) == 1
-        why = '' if ok else 'verification is not wrapped in exactly one try'
-        if ok:
-            tr = tries[0]
-            body = tr.body
-            ok = len(body) == 2 and _has_verify(body[0]) and _puts(w, h, body[1]) == b'\xff'
-            if not ok:
-                why = 'the try body is not `verify(..)` followed by putting the true constant'
-            for hd in tr.handlers:
-                if not (len(hd.body) == 1 and _puts(w, h, hd.body[0]) == b'\x00'):
-                    ok, why = False, 'an exception handler of the verification does not put the false constant'
-            # no other put of the true constant anywhere else in the handler
-            others = 0
-            for st in ast.walk(h.node):
-                if isinstance(st, ast.Expr) and _puts(w, h, st) == b'\xff' and not any(st is b for b in body):
-                    others += 1
-            if others:
-                ok, why = False, 'the true constant is put outside the fall-through of verify'
+        ok, why = _verdict_paths(w, h)
         rep.check('C02.R5', f'functions.{h.name}|result-mapping', ok, line=h.node.lineno, file=REL, why=why)
         # verify is applied to (message, signature) in that order with the checked key
         vn = [n for n in ast.walk(h.node) if isinstance(n, ast.Call) and isinstance(n.func, ast.Attribute)
@@ -479,3 +461,144 @@ def _puts(w: World, h, st):
         if 'OP_FALSE' in ops:
             return b'\x00'
     return None
+
+
+# ---------------------------------------------------------------------------
+# R5: verdict on every path after verify
+# ---------------------------------------------------------------------------
+_T, _F, _MSG, _UNK = 'true', 'false', 'verify-result', 'unknown'
+
+
+def _verdict_paths(w: World, h):
+    """Path-sensitive reading of the handler after its `verify` call: on every path on which verify
+    returned the true constant is put, on every path on which it raised the false constant is put,
+    and no branch in between depends on the *value* verify returned (the signed message - empty
+    messages are falsy)."""
+    cfg = w.cfg(h)
+    stack = h.params[1]
+    vns = cfg.nodes_with_call(lambda c: isinstance(c.func, ast.Attribute) and c.func.attr == 'verify')
+    if len(vns) != 1:
+        return False, f'{len(vns)} verify calls (expected one)'
+    vn, vcall = vns[0]
+    in_try = any(lab == 'exc' for _, lab in vn.succ)
+    if not in_try:
+        return False, 'a failing verification is not caught: a bad signature raises instead of yielding false'
+
+    def const_val(e):
+        if isinstance(e, ast.Constant):
+            if e.value is None or e.value is False or e.value == b'' or e.value == 0 or e.value == '':
+                return _F
+            return _T
+        return None
+
+    def value_of(e, env):
+        c = const_val(e)
+        if c:
+            return c
+        if e is vcall or (isinstance(e, ast.Call) and e is vcall):
+            return _MSG
+        if isinstance(e, ast.Name):
+            return env.get(e.id, _UNK)
+        if isinstance(e, ast.Call) and any(x is vcall for x in ast.walk(e)):
+            return _UNK
+        return _UNK
+
+    def truth(e, env):
+        """(truth value or None, problem)"""
+        if isinstance(e, ast.UnaryOp) and isinstance(e.op, ast.Not):
+            t, pr = truth(e.operand, env)
+            return (None if t is None else (not t)), pr
+        if isinstance(e, ast.Compare) and len(e.ops) == 1 and isinstance(e.ops[0], (ast.Is, ast.IsNot)) and \
+                isinstance(e.comparators[0], ast.Constant) and e.comparators[0].value is None:
+            v = value_of(e.left, env)
+            if v == _MSG or v == _T:
+                r = False
+            elif v == _F and isinstance(e.left, ast.Name) and env.get(e.left.id + '#none'):
+                r = True
+            else:
+                return None, ''
+            return (r if isinstance(e.ops[0], ast.Is) else not r), ''
+        v = value_of(e, env)
+        if v == _T:
+            return True, ''
+        if v == _F:
+            return False, ''
+        if v == _MSG:
+            return None, ('the verdict branches on the truthiness of what verify() returned (the signed message): a '
+                          'valid signature over an empty message would yield false')
+        return None, ''
+
+    problems = []
+    npaths = [0]
+
+    def walk(n, env, raised, verdict, depth, seen):
+        if depth > 200 or npaths[0] > 4000:
+            problems.append('too many paths after verify')
+            return
+        if n.kind in ('exit',):
+            npaths[0] += 1
+            if verdict is None:
+                problems.append('a path after verify ends without putting a verdict')
+            elif verdict == _T and raised:
+                problems.append('the true constant is put on a path on which verify raised')
+            elif verdict == _F and not raised:
+                problems.append('the false constant is put on the fall-through of verify (a valid signature yields false)')
+            return
+        if n.kind == 'raise':
+            return
+        env = dict(env)
+        a = n.ast
+        if n is not vn and n.kind == 'stmt' and isinstance(a, ast.Assign) and len(a.targets) == 1 and \
+                isinstance(a.targets[0], ast.Name):
+            v = value_of(a.value, env)
+            env[a.targets[0].id] = v
+            env[a.targets[0].id + '#none'] = isinstance(a.value, ast.Constant) and a.value.value is None
+        if n.kind == 'stmt' and isinstance(a, ast.Expr) and isinstance(a.value, ast.Call):
+            c = a.value
+            pv = None
+            if dotted(c.func) == f'{stack}.put' and c.args:
+                pv = c.args[0]
+                if isinstance(pv, ast.Constant) and pv.value == b'\xff':
+                    verdict = _T
+                elif isinstance(pv, ast.Constant) and pv.value == b'\x00':
+                    verdict = _F
+                else:
+                    problems.append(f'a value other than the true/false constants is put after verify: `{ast.unparse(pv)[:40]}`')
+            elif isinstance(c.func, ast.Name):
+                ops = w.op_of_handler.get(c.func.id, [])
+                if 'OP_TRUE' in ops:
+                    verdict = _T
+                elif 'OP_FALSE' in ops:
+                    verdict = _F
+        succs = list(n.succ)
+        if n is vn:
+            # the assignment of verify's result happens only on the normal edge
+            for s2, lab in succs:
+                e2 = dict(env)
+                if lab == 'exc':
+                    walk(s2, e2, True, verdict, depth + 1, seen)
+                else:
+                    if isinstance(a, ast.Assign) and len(a.targets) == 1 and isinstance(a.targets[0], ast.Name):
+                        e2[a.targets[0].id] = _MSG if a.value is vcall else _UNK
+                    walk(s2, e2, raised, verdict, depth + 1, seen)
+            return
+        if n.kind == 'test':
+            t, pr = truth(a, env)
+            if pr:
+                problems.append(pr)
+            for s2, lab in succs:
+                if lab == 'exc':
+                    continue
+                if t is not None and lab in (True, False) and lab is not t:
+                    continue
+                walk(s2, env, raised, verdict, depth + 1, seen)
+            return
+        for s2, lab in succs:
+            if lab == 'exc':
+                continue        # other raising statements after verify end the script with an error
+            walk(s2, env, raised, verdict, depth + 1, seen)
+
+    walk(vn, {}, False, None, 0, set())
+    if npaths[0] == 0 and not problems:
+        problems.append('no path from verify to the end of the handler')
+    return (not problems), (problems[0] if problems else '')
